@@ -80,9 +80,44 @@ def backend_options(backend: str, seed: int | None = None, shuffle: bool = False
     return {"clock": trio.testing.MockClock(autojump_threshold=0)}
 
 
-def run(main, *args, backend: str = "asyncio", seed: int | None = None, shuffle: bool = False):
-    """anyio.run under virtual time. trio: seeded batch shuffling always; asyncio: FIFO unless shuffle."""
-    return anyio.run(main, *args, backend=backend, backend_options=backend_options(backend, seed, shuffle))
+class HarnessHang(BaseException):
+    """Raised in the main thread when one execution has not finished after HANG_LIMIT seconds of REAL time: under virtual time an
+    execution takes milliseconds, so the code under test has stopped making progress (everything waits for something that never
+    comes). The drivers record it like any other crash of the scenario; the rest of the trace is still judged."""
+
+
+HANG_LIMIT = 90.0
+
+
+def _on_hang_signal(signum, frame):
+    raise HarnessHang(f"no progress after {HANG_LIMIT:.0f} s of real time")
+
+
+def run(main, *args, backend: str = "asyncio", seed: int | None = None, shuffle: bool = False, watchdog: bool = False):
+    """anyio.run under virtual time. trio: seeded batch shuffling always; asyncio: FIFO unless shuffle.
+    watchdog=True (drivers that execute ONE small scenario per run): a thread interrupts an execution that hangs (SIGUSR1 to the
+    main thread, repeated until the run is over)."""
+    import signal
+    import threading
+    if not watchdog or threading.current_thread() is not threading.main_thread():
+        return anyio.run(main, *args, backend=backend, backend_options=backend_options(backend, seed, shuffle))
+    done = threading.Event()
+    main_ident = threading.get_ident()
+
+    def watchdog():
+        while not done.wait(HANG_LIMIT):
+            try:
+                signal.pthread_kill(main_ident, signal.SIGUSR1)
+            except Exception:  # noqa: BLE001
+                return
+    old = signal.signal(signal.SIGUSR1, _on_hang_signal)
+    t = threading.Thread(target=watchdog, daemon=True)
+    t.start()
+    try:
+        return anyio.run(main, *args, backend=backend, backend_options=backend_options(backend, seed, shuffle))
+    finally:
+        done.set()
+        signal.signal(signal.SIGUSR1, old)
 
 
 BACKENDS = ("asyncio", "trio")
